@@ -616,6 +616,7 @@ class PyGen:
         first = next((t for t in ts if t.k != 'M'), None)
         if first is not None and first.k == 'n' and first.s in ('match', 'case'):
             d = 0
+            pending_lambda = False   # as in the finding's predicate (c01.top_level_colon): one lambda colon is told apart
             for t in ts:
                 if t.pair is not None:
                     continue  # redundant parentheses may be dropped by the layout: they do not count as nesting
@@ -623,6 +624,10 @@ class PyGen:
                     d += 1
                 elif t.k == ')':
                     d -= 1
+                elif d == 0 and t.k == 'k' and t.s == 'lambda':
+                    pending_lambda = True
+                elif d == 0 and t.k == ':' and pending_lambda:
+                    pending_lambda = False
                 elif d == 0 and t.k == ':' and self.excluded('C01-F2'):
                     first.s = 'matches'
                     break
